@@ -135,9 +135,9 @@ theorem rx_body (e : Env F) (u : Cell) (hu : inside e.h e.w u = true) (mst : ASt
     have hz' : exec fuel (.scope (ncSt "_is_not_crossable6$cell_value" "_is_not_crossable6$i"
       "_is_not_crossable6$ret0")) st2 = st3 := hz
     have h2 : exec fuel rx1 st1 = exec fuel rx2 st3 := by
-      rw [rx1, exec_seq_run (s1 := st1) (by ilsimp [st1, hc.height, hc.width, hnb]) hst,
-        exec_seq_run (s1 := st2) (by ilsimp [st1, st2, hc.s_data, rv1, rv2, hov, hdv]) hst,
-        exec_seq_run hz' hst]
+      rw [rx1, exec_seq_to (s1 := st1) (by ilsimp [st1, hc.height, hc.width, hnb]) hst,
+        exec_seq_to (s1 := st2) (by ilsimp [st1, st2, hc.s_data, rv1, rv2, hov, hdv]) hst,
+        exec_seq_to hz' hst]
     rw [h2]
     by_cases hbar : notCross dv (st.fa "barriers") = true
     · rw [relax_barrier e u off mst (by rw [← hv, hcr, hbar]; rfl)]
